@@ -141,6 +141,7 @@ Theorem escape_concat_valid : forall s, utf8_valid s = true -> utf8_valid (escap
 Proof.
   intros s Hv. pose proof (utf8_valid_bytes s Hv) as HF. rewrite escape_concat_spec by exact HF.
   rewrite utf8_valid_cons_ascii by lia.
+  apply utf8_valid_app; [|reflexivity].
   apply utf8_valid_U8 in Hv. clear HF.
   induction Hv as [|b0 r H0 Hr IH|b0 b1 r H0 Hr IH|b0 b1 b2 r H0 Hr IH|b0 b1 b2 b3 r H0 Hr IH].
   - reflexivity.
